@@ -609,7 +609,7 @@ def render(e):
             body = body["block"]["stmts"][0]["0"]
         return "|" + ",".join(render_pat(p) for p in e["inputs"]) + "|" + render(body)
     if k == "Expr::Macro":
-        return render_path(e["mac"]["path"]) + "!(" + tokens_text(e["mac"]["tokens"]).replace(" ", "") + ")"
+        return render_path(e["mac"]["path"]) + "!(" + tokens_compact(e["mac"]["tokens"]) + ")"
     if k == "Expr::Block":
         return "{" + ";".join(render_stmt(s) for s in e["block"]["stmts"]) + "}"
     if k == "Expr::If":
@@ -641,11 +641,15 @@ def render(e):
 def render_stmt(s):
     k = kind(s)
     if k == "Stmt::Local":
-        return "let " + render_pat(s["pat"]) + ("=" + render(s["init"]["expr"]) if s.get("init") else "")
+        init = s.get("init")
+        txt = "let " + render_pat(s["pat"]) + ("=" + render(init["expr"]) if init else "")
+        if init and init.get("diverge"):
+            txt += " else " + render(init["diverge"][1])
+        return txt
     if k == "Stmt::Expr":
         return render(s["0"])
     if k == "Stmt::Macro":
-        return render_path(s["mac"]["path"]) + "!(" + tokens_text(s["mac"]["tokens"]).replace(" ", "") + ")"
+        return render_path(s["mac"]["path"]) + "!(" + tokens_compact(s["mac"]["tokens"]) + ")"
     return k or "?"
 
 
@@ -676,3 +680,26 @@ def render_norm(e):
 
 def fn_text(fn):
     return ";".join(render_stmt(s) for s in fn.block["stmts"])
+
+
+def tokens_compact(ts):
+    """token text without cosmetic spaces: a space only between two word-like tokens (ident / literal)"""
+    out = []
+    prev_word = False
+    for t in ts:
+        k = kind(t)
+        if k == "Ident":
+            s_, word = t["sym"], True
+        elif k == "Literal":
+            s_, word = lit_repr(t), True
+        elif k == "Punct":
+            s_, word = punct_char(t), False
+        elif k == "Group":
+            s_, word = OPEN[t["delimiter"]] + tokens_compact(t["stream"]) + CLOSE[t["delimiter"]], False
+        else:
+            s_, word = "?", False
+        if out and prev_word and word:
+            out.append(" ")
+        out.append(s_)
+        prev_word = word
+    return "".join(out)
